@@ -1083,10 +1083,14 @@ class Consumer(object):
             self._processor_d = d
             # Once the processor completes, clear our _processor_d
             d.addBoth(self._clear_processor_deferred, d)
-            # Record the offset of the last processed message and check autocommit
-            d.addCallback(self._update_processed_offset, last_offset, run)
+            # Record the offset of the last processed message and check autocommit.
+            # The result belongs to the run that is on now that the call has
+            # returned: a call that stopped the consumer and returns normally
+            # still counts (as it always did); a deferred that fires only after
+            # a later stop() does not.
+            d.addCallback(self._update_processed_offset, last_offset, self._run)
             # Add an error handler
-            d.addErrback(self._handle_processor_error, run)
+            d.addErrback(self._handle_processor_error, self._run)
             # If we were stopped, cancel the processor deferred. Note, we have to
             # do this here, in addition to in stop() because the processor func
             # itself could have called stop(), and then when it returned, we re-set
